@@ -59,7 +59,7 @@ fn install_gate(point_id: u32, thread: std::thread::ThreadId) -> Gate {
 
 /// Run `decide` on its own thread, stopping it at `point_id`; while it is
 /// stopped run `peer`; then let it finish. Returns the decision.
-fn race(
+pub fn race(
     point_id: u32,
     decide: impl FnOnce() -> bool + Send + 'static,
     peer: impl FnOnce(),
@@ -144,6 +144,44 @@ pub fn run(args: &[String]) -> Vec<String> {
                 let v = w.wait(need);
                 out.push(format!("wait writer {free} {need} {}\t{v}", alive as u8));
                 drop(keepr);
+            }
+        }
+    }
+    // the same decisions on a stream of 4-byte samples (capacity 1024): amounts are samples, never bytes
+    for used in [0usize, 3, 1021, 1023, 1024] {
+        for need in [1usize, 2, 4, 10, 12, 1024, 1025] {
+            // reader gone / writer gone only (no blocking waits)
+            {
+                let (w, r) = small_stream::<u32>();
+                if used > 0 {
+                    let mut wb = w.write_buf().unwrap();
+                    for i in 0..used {
+                        wb.slice()[i] = i as u32;
+                    }
+                    wb.produce(used, &[]);
+                }
+                let free = 1024 - used;
+                drop(r);
+                let v = w.wait(need);
+                out.push(format!("wait writer {free} {need} 0\t{v}"));
+            }
+            {
+                let (w, r) = small_stream::<u32>();
+                if used > 0 {
+                    let mut wb = w.write_buf().unwrap();
+                    for i in 0..used {
+                        wb.slice()[i] = i as u32;
+                    }
+                    wb.produce(used, &[]);
+                }
+                drop(w);
+                let v = r.wait(need);
+                let e = r.eof();
+                let intact = {
+                    let (rb, _) = r.read_buf().unwrap();
+                    rb.len() == used && rb.slice().iter().enumerate().all(|(i, x)| *x == i as u32)
+                };
+                out.push(format!("wait reader {used} {need} 0\t{v} eof={e} intact={intact}"));
             }
         }
     }
